@@ -4,7 +4,7 @@ import copy
 NS = ['My', 'Hal', 'Sub', 'A', 'B', 'Proj']
 ITF = ['IApi', 'IHal', 'ICtl', 'IToaster']
 EXT = ['Str', 'Int', 'T', 'MilliSeconds', 'PIncident']
-EXTV = ['std::string', 'int', 'size_t', 'Sub::MyLongNamedType', '::My::Data<int>', 'std::shared_ptr<Incident>']
+EXTV = ['std::string', 'int', 'size_t', '::Sub::MyLongNamedType', '::My::Data<int>', 'std::shared_ptr<::Incident>']
 PORTS = ['api', 'ctl', 'hal', 'hal2', 'cord', 'led', 'p1', 'x_y', 'Api2', 'q']
 EVIN = ['Claim', 'Release', 'Drop', 'Use', 'Initialize', 'Go', 'Set', 'Cancel']
 EVOUT = ['Done', 'Fail', 'Went', 'Ok', 'Ready']
